@@ -4,6 +4,7 @@ TAB-PREFIX, TAB-EPSFILTER (with TAB-AUGMENT), TAB-ASSOC, TAB-SPECIAL, SEED-STATE
 from __future__ import annotations
 
 import ast
+import re
 import itertools
 
 from ..model import AnalysisError, norm, walk_live, parent, ancestors, first_line
@@ -536,8 +537,7 @@ def rule_tab_special(P):
         found = []
         for n in walk_live(f.node):
             if isinstance(n, ast.For) and isinstance(n.target, ast.Name):
-                facts = W.guard_facts(n)
-                if any(ft.pol and "len(" in norm(ft.test) and ".body) == 0" in norm(ft.test) for ft in facts):
+                if any(re.match(r"^(0 == len\(\w+\.body\)|not \w+\.body|len\(\w+\.body\) < 1)$", t) for t in W.cfacts(f.node, n)):
                     found.append(n)
         good = [n for n in found if norm(n.iter) == f"{f.params[1]}.states"]
         ok = len(good) == 1 and len(found) == 1
